@@ -740,3 +740,198 @@ Proof.
   assert (D2 : str_dup (id_strs crecs) = false) by (apply str_dup_false_NoDup; apply distinct_text_nodup; assumption).
   rewrite D1, D2. cbn [orb bind]. rewrite Hsmd. cbn [bind]. rewrite Homd. reflexivity.
 Qed.
+
+(* ================================================================== HDF5 *)
+Lemma run_attrs_sound f l : forall idx,
+  run_attrs f l idx = ROk [] ->
+  Forall (fun kv => exists a, aget (h_attrs f) (fst kv) = Some a /\ snd kv a = ROk None) l.
+Proof.
+  induction l as [|[k v] t IH]; intros idx H; [constructor|].
+  cbn [run_attrs] in H. destruct (aget (h_attrs f) k) as [a|] eqn:E.
+  - inv_bind H as s Hs. inv_bind H as rest Hrest. destruct s; [discriminate|]. inversion H; subst.
+    constructor; [exists a; auto|exact (IH _ Hrest)].
+  - inv_bind H as rest Hrest. discriminate.
+Qed.
+
+Lemma missing_paths_sound f code l : forall idx,
+  missing_paths f code l idx = [] -> Forall (fun p => hfind (h_root f) p <> None) l.
+Proof.
+  induction l as [|p t IH]; intros idx H; [constructor|].
+  cbn [missing_paths] in H. destruct (hfind (h_root f) p) eqn:E; [|discriminate].
+  constructor; [congruence|exact (IH _ H)].
+Qed.
+
+Definition ids_ok (n : h5node) : Prop :=
+  match n with
+  | HStrs l => Forall (fun s => s <> []) l /\ NoDup l
+  | HInts [] | HFlts [] | HEmpty => True
+  | _ => False
+  end.
+
+Lemma ids_loop_sound ax l : forall seen,
+  ids_loop ax l seen = [] -> Forall (fun s => s <> []) l /\ NoDup l /\ (forall x, In x l -> ~ In x seen).
+Proof.
+  induction l as [|s t IH]; intros seen H; [repeat split; try constructor; intros x []|].
+  cbn [ids_loop] in H. destruct s as [|c s']; [discriminate|].
+  destruct (str_mem (c :: s') seen) eqn:M; [discriminate|].
+  destruct (IH _ H) as (A & B & C).
+  split; [constructor; [discriminate|exact A]|]. split.
+  - constructor; [|exact B]. intros Hin. apply (C _ Hin). left; reflexivity.
+  - intros x [<-|Hx] Hs.
+    + assert (str_mem (c :: s') seen = true) by (apply str_mem_In; exact Hs). congruence.
+    + apply (C x Hx). right; exact Hs.
+Qed.
+
+Lemma hv_ids_sound f ax n :
+  hv_ids f ax = ROk [] -> hfind (h_root f) (P2 (axis_name ax) "ids") = Some n -> ids_ok n.
+Proof.
+  unfold hv_ids. intros H E. rewrite E in H. destruct n as [ch|l|l|l|]; try discriminate; cbn [ids_ok].
+  - inversion H as [H1]. destruct (ids_loop_sound _ _ _ H1) as (A & B & _). auto.
+  - destruct l; [exact Logic.I|discriminate].
+  - destruct l; [exact Logic.I|discriminate].
+  - exact Logic.I.
+Qed.
+
+Fixpoint nondecreasing (l : list Z) : Prop :=
+  match l with
+  | a :: ((b :: _) as t) => a <= b /\ nondecreasing t
+  | _ => True
+  end.
+Lemma decreasing_false l : decreasing l = false -> nondecreasing l.
+Proof.
+  induction l as [|a [|b t] IH]; intros H; cbn [nondecreasing]; auto.
+  cbn [decreasing] in H. apply orb_false_iff in H. destruct H as [H1 H2].
+  apply Z.ltb_ge in H1. split; [lia|exact (IH H2)].
+Qed.
+
+(* the compressed-sparse matrix of one axis fits n_vec vectors of n_pos positions *)
+Definition matrix_ok (f : h5file) (ax : Z) (n_vec n_pos : Z) : Prop :=
+  exists d indices indptr,
+    hfind (h_root f) (P3 (axis_name ax) "matrix" "data") = Some d
+    /\ (forall ch, d <> HGroup ch) /\ (forall l, d <> HStrs l)
+    /\ hfind (h_root f) (P3 (axis_name ax) "matrix" "indices") = Some (HInts indices)
+    /\ hfind (h_root f) (P3 (axis_name ax) "matrix" "indptr") = Some (HInts indptr)
+    /\ length indices = node_len d /\ Z.of_nat (length indptr) = n_vec + 1
+    /\ hd 0 indptr = 0 /\ last indptr 0 = Z.of_nat (node_len d) /\ nondecreasing indptr
+    /\ Forall (fun i => 0 <= i < n_pos) indices.
+
+Lemma hv_matrix_sound f ax nv np d ni npt :
+  hfind (h_root f) (P3 (axis_name ax) "matrix" "data") = Some d ->
+  hfind (h_root f) (P3 (axis_name ax) "matrix" "indices") = Some ni ->
+  hfind (h_root f) (P3 (axis_name ax) "matrix" "indptr") = Some npt ->
+  hv_matrix f ax (SCALE * nv) (SCALE * np) = ROk [] -> matrix_ok f ax nv np.
+Proof.
+  intros Ed Ei Ep H. unfold hv_matrix in H. rewrite Ed, Ei, Ep in H.
+  destruct d as [ch|sl|dl|dl|]; try discriminate.
+  all: inv_bind H as ki Hki; destruct ki; cbn [negb] in H; [|discriminate];
+       inv_bind H as kp Hkp; destruct kp; cbn [negb] in H; [|discriminate];
+       destruct ni as [?|?|indices|?|]; try discriminate;
+       destruct npt as [?|?|indptr|?|]; try discriminate;
+       match type of H with
+       | context [node_len ?dd] =>
+           destruct (Z.of_nat (length indices) =? Z.of_nat (node_len dd)) eqn:L1; cbn [negb] in H; [|discriminate];
+           destruct (SCALE * Z.of_nat (length indptr) =? SCALE * nv + SCALE) eqn:L2; cbn [negb] in H; [|discriminate];
+           destruct indptr as [|p0 pt]; [discriminate|];
+           destruct (negb (p0 =? 0) || negb (last (p0 :: pt) 0 =? Z.of_nat (node_len dd))) eqn:L3; [discriminate|];
+           destruct (decreasing (p0 :: pt)) eqn:L4; [discriminate|];
+           destruct ((0 <? Z.of_nat (node_len dd)) && existsb (fun i => (i <? 0) || (SCALE * np <=? SCALE * i)) indices) eqn:L5;
+             [discriminate|];
+           apply Z.eqb_eq in L1; apply Z.eqb_eq in L2;
+           apply orb_false_iff in L3; destruct L3 as [L3a L3b];
+           apply negb_false_iff in L3a; apply negb_false_iff in L3b; apply Z.eqb_eq in L3a; apply Z.eqb_eq in L3b;
+           exists dd, indices, (p0 :: pt);
+           repeat split; try assumption; try discriminate;
+           [lia | unfold SCALE in L2; lia | apply decreasing_false; exact L4 |
+            apply Forall_forall; intros i Hi;
+            apply andb_false_iff in L5; destruct L5 as [L5|L5];
+            [apply Z.ltb_ge in L5; assert (length indices = 0)%nat by lia;
+             destruct indices; [contradiction|discriminate]
+            |assert (X : (i <? 0) || (SCALE * np <=? SCALE * i) = false);
+             [destruct ((i <? 0) || (SCALE * np <=? SCALE * i)) eqn:Y; [|reflexivity];
+              assert (existsb (fun i => (i <? 0) || (SCALE * np <=? SCALE * i)) indices = true)
+                by (apply existsb_exists; exists i; auto); congruence|];
+             apply orb_false_iff in X; destruct X as [X1 X2]; apply Z.ltb_ge in X1; apply Z.leb_gt in X2;
+             unfold SCALE in X2; lia]]
+       end.
+Qed.
+
+Definition METADATA_GROUPS : list (list str) :=
+  [P2 "observation" "metadata"; P2 "observation" "group-metadata"; P2 "sample" "metadata";
+   P2 "sample" "group-metadata"].
+
+(* what a "valid" verdict on an HDF5 file guarantees *)
+Definition valid_h5 (f : h5file) : Prop :=
+  Forall (fun k => aget (h_attrs f) k <> None) (map fst H_REQUIRED_ATTRS)
+  /\ Forall (fun p => hfind (h_root f) p <> None) (H_REQUIRED_GROUPS ++ METADATA_GROUPS ++ H_REQUIRED_DATASETS)
+  /\ exists no ns oi si,
+       aget (h_attrs f) (K "shape") = Some (AInts [no; ns])
+       /\ hfind (h_root f) (P2 "observation" "ids") = Some oi /\ hfind (h_root f) (P2 "sample" "ids") = Some si
+       /\ no = Z.of_nat (node_len oi) /\ ns = Z.of_nat (node_len si)
+       /\ ids_ok oi /\ ids_ok si
+       /\ matrix_ok f 0 no ns /\ matrix_ok f 1 ns no.
+
+Lemma app_nil_inv {A} (a b : list A) : a ++ b = [] -> a = [] /\ b = [].
+Proof. destruct a; simpl; [auto|discriminate]. Qed.
+
+Lemma hv_metadata_sound f : hv_metadata_v210 f = ROk [] ->
+  Forall (fun p => hfind (h_root f) p <> None) METADATA_GROUPS.
+Proof.
+  unfold hv_metadata_v210. intros H.
+  destruct (hfind (h_root f) (P2 "observation" "metadata")) eqn:E1; cbn [negb] in H; [|discriminate].
+  destruct (hfind (h_root f) (P2 "observation" "group-metadata")) eqn:E2; cbn [negb] in H; [|discriminate].
+  destruct (hfind (h_root f) (P2 "sample" "metadata")) eqn:E3; cbn [negb] in H; [|discriminate].
+  destruct (hfind (h_root f) (P2 "sample" "group-metadata")) eqn:E4; cbn [negb] in H; [|discriminate].
+  unfold METADATA_GROUPS. repeat constructor; congruence.
+Qed.
+
+Theorem valid_sound_hdf5 f : validate_hdf5 f = true -> valid_h5 f.
+Proof.
+  unfold validate_hdf5. destruct (validate_hdf5_report f) as [[[|] lines]|] eqn:R; try discriminate. intros _.
+  unfold validate_hdf5_report in R.
+  inv_bind R as a Ha. inv_bind R as i0 Hi0. inv_bind R as i1 Hi1. inv_bind R as s Hs. inv_bind R as v Hv.
+  inversion R as [[Hl _]]. clear R.
+  destruct (a ++ missing_paths f HMSG_GROUP H_REQUIRED_GROUPS 0 ++ missing_paths f HMSG_DATASET H_REQUIRED_DATASETS 0
+              ++ i0 ++ i1 ++ s ++ v) eqn:L; [|discriminate]. clear Hl.
+  apply app_nil_inv in L. destruct L as [-> L]. apply app_nil_inv in L. destruct L as [Lg L].
+  apply app_nil_inv in L. destruct L as [Ld L]. apply app_nil_inv in L. destruct L as [-> L].
+  apply app_nil_inv in L. destruct L as [-> L]. apply app_nil_inv in L. destruct L as [-> ->].
+  apply run_attrs_sound in Ha. apply missing_paths_sound in Lg. apply missing_paths_sound in Ld.
+  assert (A : forall k v, In (k, v) H_REQUIRED_ATTRS -> exists a, aget (h_attrs f) k = Some a /\ v a = ROk None).
+  { intros k v' Hin. rewrite Forall_forall in Ha. exact (Ha (k, v') Hin). }
+  destruct (A (K "shape") hv_shape) as [sh [Gsh Vsh]]; [cbn; tauto|].
+  destruct sh as [?|?|?|[|x [|y [|? ?]]]|[|x [|y [|? ?]]]]; try discriminate.
+  rewrite Gsh in Hs.
+  destruct (A (K "format-version") hv_format_version) as [fv [Gfv Vfv]]; [cbn; tauto|].
+  rewrite Gfv in Hv.
+  assert (Md : Forall (fun p => hfind (h_root f) p <> None) METADATA_GROUPS).
+  { destruct fv as [?|?|?|l|?]; try discriminate.
+    destruct (list_eqb Z.eqb l [2; 1]); [exact (hv_metadata_sound f Hv)|discriminate]. }
+  unfold shape_part in Hs.
+  destruct (hfind (h_root f) (P2 "observation" "ids")) as [oi|] eqn:Eo; [|discriminate].
+  destruct (hfind (h_root f) (P2 "sample" "ids")) as [si|] eqn:Es; [|discriminate].
+  inv_bind Hs as x0 Hx0. inv_bind Hs as x1 Hx1. inversion Hs as [Hl]. clear Hs.
+  apply app_nil_inv in Hl. destruct Hl as [M3 Hl]. apply app_nil_inv in Hl. destruct Hl as [M4 Hl].
+  apply app_nil_inv in Hl. destruct Hl as [-> ->].
+  destruct (negb (SCALE * x =? SCALE * Z.of_nat (node_len oi))) eqn:N3; [discriminate|].
+  destruct (negb (SCALE * y =? SCALE * Z.of_nat (node_len si))) eqn:N4; [discriminate|].
+  apply negb_false_iff in N3, N4. apply Z.eqb_eq in N3, N4. unfold SCALE in N3, N4.
+  assert (Dp : forall p, In p H_REQUIRED_DATASETS -> exists n, hfind (h_root f) p = Some n).
+  { intros p Hp. rewrite Forall_forall in Ld. specialize (Ld p Hp). destruct (hfind (h_root f) p); [eauto|contradiction]. }
+  destruct (Dp (P3 "observation" "matrix" "data")) as [d0 Ed0]; [cbn; tauto|].
+  destruct (Dp (P3 "observation" "matrix" "indices")) as [n0 En0]; [cbn; tauto|].
+  destruct (Dp (P3 "observation" "matrix" "indptr")) as [p0 Ep0]; [cbn; tauto|].
+  destruct (Dp (P3 "sample" "matrix" "data")) as [d1 Ed1]; [cbn; tauto|].
+  destruct (Dp (P3 "sample" "matrix" "indices")) as [n1 En1]; [cbn; tauto|].
+  destruct (Dp (P3 "sample" "matrix" "indptr")) as [p1 Ep1]; [cbn; tauto|].
+  split.
+  { apply Forall_forall. intros k Hk. apply in_map_iff in Hk. destruct Hk as [[k' v'] [<- Hin]].
+    destruct (A _ _ Hin) as [a [Ga _]]. cbn [fst]. congruence. }
+  split.
+  { apply Forall_app. split; [exact Lg|]. apply Forall_app. split; [exact Md|exact Ld]. }
+  exists x, y, oi, si. split; [reflexivity|]. split; [reflexivity|]. split; [reflexivity|].
+  split; [lia|]. split; [lia|].
+  split; [exact (hv_ids_sound f 0 oi Hi0 Eo)|]. split; [exact (hv_ids_sound f 1 si Hi1 Es)|].
+  split.
+  - exact (hv_matrix_sound f 0 x y d0 n0 p0 Ed0 En0 Ep0 Hx0).
+  - exact (hv_matrix_sound f 1 y x d1 n1 p1 Ed1 En1 Ep1 Hx1).
+Qed.
